@@ -146,6 +146,18 @@ macro_rules! create_window_processor {
 
             let mut store = $r2r_store.lock().unwrap();
 
+            #[cfg(kolibrie_verif)]
+            {
+                let items: Vec<String> = content
+                    .iter_with_timestamps()
+                    .map(|(item, item_ts)| format!("[{},{}]", crate::verif::json_string(&format!("{:?}", item)), item_ts))
+                    .collect();
+                crate::verif::event(format!(
+                    "{{\"ev\":\"fire\",\"win\":{},\"ts\":{},\"items\":[{}]}}",
+                    crate::verif::json_string(&$window_iri), ts, items.join(",")
+                ));
+            }
+
             if let Some(simple_r2r) = store.as_any_mut().downcast_mut::<SimpleR2R>() {
                 match $seed_registry.lock().unwrap().snapshot_for_ids(live_seed_ids) {
                     Ok(snapshot) => simple_r2r.set_live_seed_snapshot(snapshot),
@@ -177,6 +189,27 @@ macro_rules! create_window_processor {
 
             let results = store.execute_query(&$query);
             debug!("Got # results {} for window {}", results.len(), $window_iri);
+            #[cfg(kolibrie_verif)]
+            {
+                let rows: Vec<String> = results
+                    .iter()
+                    .map(|res| match (res as &dyn std::any::Any).downcast_ref::<Vec<(String, String)>>() {
+                        Some(bindings) => format!(
+                            "{{{}}}",
+                            bindings
+                                .iter()
+                                .map(|(k, v)| format!("{}:{}", crate::verif::json_string(k), crate::verif::json_string(v)))
+                                .collect::<Vec<_>>()
+                                .join(",")
+                        ),
+                        None => "{}".to_string(),
+                    })
+                    .collect();
+                crate::verif::event(format!(
+                    "{{\"ev\":\"query\",\"win\":{},\"ts\":{},\"rows\":[{}]}}",
+                    crate::verif::json_string(&$window_iri), ts, rows.join(",")
+                ));
+            }
 
             // Release lock early to reduce contention
             drop(store);
@@ -222,6 +255,8 @@ macro_rules! register_window {
             loop {
                 match receiver.recv() {
                     Ok(content) => {
+                        #[cfg(kolibrie_verif)]
+                        crate::verif::yield_point("window-worker");
                         $processor(content);
                     }
                     Err(_) => {
@@ -644,6 +679,8 @@ where
                 };
 
                 if let Some(window_result) = maybe_result {
+                    #[cfg(kolibrie_verif)]
+                    crate::verif::yield_point("coordinator");
                     debug!(
                         "Coordinator received {} results from window: {}",
                         window_result.results.len(),
